@@ -79,8 +79,45 @@ def replayPoint (k target bchMax : Nat) (reps : List Rep) (final : Rep) (seen : 
     else if c.errors ≠ target then (some s!"point-stopped-with-{c.errors}-errors-instead-of-{target}", seen')
     else (none, seen')
 
+/-- the scripted decoder in sequential mode: bit errors and success flag as before, iteration count `id mod 7`, and 0 for every fifth frame -/
+def scriptFrameSeq (k id : Nat) : Frame :=
+  let be := min (id % 4) k
+  { bitErrors := be, frameError := be > 0, falseDecode := be > 0 && (id % 3 != 0), iterations := if id % 5 == 0 then 0 else id % 7 }
+
+/-- one worker, one point: the frames are consumed in the order 1, 2, 3, …; every report must be the model state after that many frames -/
+def replaySeq (k target bchMax : Nat) (reps : List Rep) (final : Rep) : Option String :=
+  let rec go (c : Cur) (next : Nat) : List Rep → Option String × Cur
+    | [] => (none, c)
+    | r :: rest =>
+      if r.nf == c.numFrames then
+        (if sameCounters r c && (r.nf == 0 || r.ratios == ratios k c) then go c next rest else (some "repeated-report-differs", c))
+      else if r.nf ≠ c.numFrames + 1 then (some "report-skips-frames", c)
+      else if c.errors ≥ target then (some "frame-consumed-after-the-error-target-was-reached", c)
+      else
+        let c' := c.step bchMax (scriptFrameSeq k next)
+        if !sameCounters r c' then (some s!"counters-are-not-those-of-whole-frames (frame {next}, zero-iteration frames included)", c')
+        else if r.ratios ≠ ratios k c' then (some "ratio-is-not-the-stated-quotient", c')
+        else go c' (next + 1) rest
+  let (e, c) := go (Cur.new bchMax) 1 reps
+  match e with
+  | some why => some why
+  | none =>
+    if !sameCounters final c || final.ratios ≠ ratios k c then some "returned-statistics-differ-from-last-report"
+    else if c.errors ≠ target then some s!"point-stopped-with-{c.errors}-errors-instead-of-{target}"
+    else none
+
 def handle (inp out : List String) : String :=
   match inp with
+  | ["seq", k, target, bchMax] =>
+    match k.toNat?, target.toNat?, bchMax.toNat? with
+    | some k, some target, some bchMax =>
+      let toks := out.takeWhile (· ≠ "|")
+      let finals := (out.dropWhile (· ≠ "|")).drop 1
+      if toks.getLast? ≠ some "FIN" then verdict out out (some "finished-report-is-not-last") else
+      match (toks.dropLast).mapM parseRep, finals.mapM parseRep with
+      | some reps, some [fin] => verdict out out (replaySeq k target bchMax reps fin)
+      | _, _ => "BADLINE c13 seq tokens"
+    | _, _, _ => "BADLINE c13 seq"
   | ["run", k, target, bchMax, workers] =>
     match k.toNat?, target.toNat?, bchMax.toNat? with
     | some k, some target, some bchMax =>
